@@ -8,6 +8,7 @@ import (
 	"reflect"
 	"strings"
 	"testing"
+	"time"
 
 	"github.com/lugu/qiloop/meta/signature"
 	"pgregory.net/rapid"
@@ -18,7 +19,10 @@ import (
 
 const prop = "C09"
 
-func TestMain(m *testing.M) { vt.Main(m) }
+func TestMain(m *testing.M) {
+	vt.Watchdog = 30 * time.Second
+	vt.Main(m)
+}
 
 // Case is a signature string, either produced by the grammar generator or an
 // arbitrary / near-miss string.
